@@ -137,6 +137,7 @@ fn mode_completion(case: &Value, out: &mut Vec<Value>) {
                 out.push(json!({
                     "id": id, "kind": "completable", "text": ttext, "nsyms": rk.0.len(), "syms": rk.0,
                     "theory": tree::theory(&theory, &rk),
+                    "preds": theory.predicates().iter().map(tree::predicate).collect::<Vec<_>>(),
                     "inputs": inputs.iter().map(tree::predicate).collect::<Vec<_>>(),
                     "completed": c.is_some(),
                     "completion": c.as_ref().map(|c| tree::theory(c, &rk)).unwrap_or(json!([])),
